@@ -67,12 +67,47 @@ def run(chk) -> None:
     _r28e(chk, repo)
     chk.rule("R28f", "the two child lists the human tree output of an unparsable section walks (comments, then the rest) partition self.segments: one comprehension over self.segments with a test, the other with the negation of the same test")
     _r28f(chk, repo)
+    chk.rule("R28g", "the human tree output shows each node's type and each token's text in full: the functions that format a line (_preface, _suffix, stringify) apply no precision to a text field, no slice and no shortening helper to the type or the raw text")
+    _r28g(chk, repo)
     _r28c(chk, repo)
     chk.note("Claimed at the weakest level: these are wiring facts of the serialiser, not a proof that the listed texts concatenate to the rendered SQL.")
 
 
 # ---------------------------------------------------------------------------
 R28E_SCOPE = ("src/sqlfluff/cli/commands.py", "src/sqlfluff/api/simple.py", "src/sqlfluff/core/linter/linted_dir.py", "src/sqlfluff/core/linter/linting_result.py")
+
+
+def _r28g(chk, repo) -> None:
+    import re as _re
+
+    targets = []
+    for rel in ("src/sqlfluff/core/parser/segments/base.py", "src/sqlfluff/core/parser/segments/raw.py", "src/sqlfluff/core/parser/segments/meta.py"):
+        for q, f in repo.mod(rel).functions():
+            if f.name in ("_preface", "_suffix", "stringify"):
+                targets.append((rel, q, f))
+    chk.count("R28g.line_formatters", len(targets))
+    chk.floor("R28g.line_formatters", 3)
+    for rel, q, f in targets:
+        for x in ast.walk(f):
+            bad = None
+            if isinstance(x, ast.FormattedValue) and x.format_spec is not None:
+                spec = "".join(v.value for v in x.format_spec.values if isinstance(v, ast.Constant) and isinstance(v.value, str))
+                if _re.search(r"\.\d", spec) and not spec.rstrip().endswith(("f", "e", "g", "%")):
+                    bad = f"the format spec `{spec}` cuts the field `{short(x.value, 30)}` to a maximum width"
+            if isinstance(x, ast.Call) and isinstance(x.func, ast.Attribute) and x.func.attr == "format":
+                if isinstance(x.func.value, ast.Constant) and isinstance(x.func.value.value, str) and _re.search(r":[^}]*\.\d+[^}fge%]*}", x.func.value.value):
+                    bad = f"the template `{x.func.value.value}` has a precision on a text field"
+            if isinstance(x, ast.Call) and (last_attr(x) in ("curtail_string", "shorten", "ljust_truncate") or (isinstance(x.func, ast.Name) and "curtail" in x.func.id)):
+                bad = f"`{short(x, 40)}` shortens the text"
+            if isinstance(x, ast.Subscript) and isinstance(x.slice, ast.Slice) and any(isinstance(y, ast.Attribute) and y.attr in ("raw", "raw_upper") for y in ast.walk(x.value)):
+                bad = f"`{short(x, 40)}` takes a part of the raw text"
+            if bad:
+                chk.fail(
+                    "R28g", x,
+                    f"{q}: {bad}: deeply nested nodes lose (part of) their type and long tokens their text in the human `sqlfluff parse` output, so the listed texts no longer "
+                    "concatenate to the SQL",
+                    detail=f"{q}: type and text are printed in full",
+                )
 
 
 def _r28f(chk, repo) -> None:
@@ -825,6 +860,12 @@ def _r28c(chk, repo) -> None:
 from ..selftest import Variant  # noqa: E402
 
 VARIANTS = [
+    Variant(
+        "type-column-clipped-at-its-width", "src/sqlfluff/core/parser/segments/base.py",
+        "{padded_type:60}",
+        "{padded_type:60.60}",
+        "R28g", "_preface", "seeded C28-5: ten levels down the node types are cut short",
+    ),
     Variant(
         "non-comments-are-code-only", "src/sqlfluff/core/parser/segments/base.py",
         '        return [seg for seg in self.segments if not seg.is_type("comment")]\n',
